@@ -679,3 +679,46 @@ def regenerate():
             changed.append("gen/CFunOps.v")
         d["cfun_functions"] = names
     return changed, d
+
+# ============================================================================ driver entry point
+# Every fragment is regenerated independently; a fragment whose translator no longer recognises the source is
+# reported by name, and only the properties whose Props file depends on that fragment are affected.
+FRAGMENTS = []      # (relative .v path under coq/, function returning the text)
+def _frag_params():
+    return render_params(params())
+def _frag_guards():
+    return render_guard_table()[0]
+def _frag_cfun():
+    return render_cfun_ops()[0]
+FRAGMENTS += [("gen/Params.v", _frag_params), ("gen/GuardTable.v", _frag_guards), ("gen/ComplexOps.v", render_complex_ops)]
+
+def _cfun_enabled():
+    p = os.path.join(COQDIR, "Model", "CFun.v")
+    return os.path.exists(p) and os.path.getsize(p) > 200
+
+def regenerate_all():
+    """Returns (changed, errors): errors = {fragment: message} for fragments whose translator raised TieBroken."""
+    changed, errors = [], {}
+    frags = list(FRAGMENTS)
+    if _cfun_enabled():
+        frags.append(("gen/CFunOps.v", _frag_cfun))
+    try:
+        import translate_src            # package r2c: loop-code translator (optional)
+        frags += translate_src.fragments()
+    except ImportError:
+        pass
+    for rel, fn in frags:
+        try:
+            text = fn()
+        except TieBroken as e:
+            errors[rel] = str(e)
+            continue
+        if write_if_changed(os.path.join(COQDIR, rel), text):
+            changed.append(rel)
+    return changed, errors
+
+def regenerate():
+    changed, errors = regenerate_all()
+    if errors:
+        raise TieBroken("; ".join("%s: %s" % kv for kv in sorted(errors.items())))
+    return changed, {}
